@@ -75,6 +75,8 @@ structure State where
   reg : Int → Option Nat
   q : Nat → List Msg
   inbox : List Msg
+  /-- number of bytes of an incomplete frame sitting in the receive buffer (`_receive_buffer`) -/
+  stale : Nat
   disp : List Disp
   up : Bool
   delivered : List Msg
@@ -96,7 +98,7 @@ inductive Step
   | alloc (c : Nat) | allocRmw (c : Nat) | allocRet (c : Nat)
   | register (c : Nat) | send (c : Nat) | sendFail (c : Nat) | fire (c : Nat)
   | recv (c : Nat) | timeout (c : Nat) | unregister (c : Nat)
-  | rx (m : Msg) | pop (d : Nat) | handle (d : Nat) | finish (d : Nat)
+  | rxPart (n : Nat) | rx (m : Msg) | pop (d : Nat) | handle (d : Nat) | finish (d : Nat)
   | linkDown | linkUp
 deriving DecidableEq, Repr
 
@@ -117,6 +119,7 @@ def init (cfg : Cfg) : State where
   reg := fun _ => none
   q := fun _ => []
   inbox := []
+  stale := 0
   disp := []
   up := false
   delivered := []
@@ -197,8 +200,12 @@ def step0 (cfg : Cfg) (s : State) : Step → Option State
       | some _ => some { s with reg := upd s.reg k.id none, callers := upd s.callers c { k with pc := .done } }
       | none => some { s with callers := upd s.callers c { k with pc := .done, keyErr := true, result := none } }
     else none
+  | .rxPart n =>
+    -- bytes of a frame that is not complete yet: `_process_received_data` leaves them in the receive buffer
+    if s.up ∧ 0 < n then some { s with stale := s.stale + n } else none
   | .rx m =>
-    if s.up then some { s with inbox := s.inbox ++ [m], arrived := s.arrived ++ [m] } else none
+    -- the (rest of the) frame arrived: it is cut off the receive buffer, decoded and queued for dispatch
+    if s.up then some { s with inbox := s.inbox ++ [m], arrived := s.arrived ++ [m], stale := 0 } else none
   | .pop d =>
     match s.disp[d]?, s.inbox with
     | some dd, m :: rest =>
@@ -227,7 +234,8 @@ def step0 (cfg : Cfg) (s : State) : Step → Option State
     | none => none
   | .linkDown =>
     if s.up then
-      some { s with up := false, disp := if cfg.patched then s.disp.map (fun d => { d with stopped := true }) else s.disp }
+      -- `_on_disconnected`: `self._thread.stop()`, `self._receive_buffer.clear()` (the dispatch queue is NOT cleared)
+      some { s with up := false, stale := 0, disp := if cfg.patched then s.disp.map (fun d => { d with stopped := true }) else s.disp }
     else none
   | .linkUp =>
     if s.up then none else
